@@ -292,6 +292,22 @@ CLAIMED.update(
     }
 )
 
+CLAIMED.update(
+    {
+        "C21": (
+            "abstract interpretation of the mutation summary, score and greedy set-cover selection over exhaustive small domains, sibling agreement on the violation predicate, zip-alignment rule on execute_multiple results, removal-condition shape rules",
+            "Decides the score and kill-preservation clauses on exhaustive small domains, interpreting the source: survived / killed / timeout partition the mutants for all 64 state vectors "
+            "of 3 mutants and the metrics count exactly those; get_score equals killed / (created - timeout), lies in [0, 1] and is 1.0 for an empty divisor for every count triple up to 4 "
+            "mutants; _select_minimal_assertions, for all 512 kill maps over 3 assertions x 3 mutants, keeps only assertions with a non-empty kill set whose union equals the union of the "
+            "full set (minimisation preserves every kill). Shape: was_violated is failed-or-error (4 cases) and every reader of a verification trace in the mutation analysis counts both kinds; "
+            "results of execute_multiple(L) are zipped strictly with L itself; minimisation removes an assertion iff its key is not kept, and kill map and removal skip the same "
+            "exception-only statements. Whether kept assertions hold when re-executed on the unmutated module (SUT flakiness) is not decided.",
+            "Trusts sa/engine/peval.py; mutant and trace objects are modelled as field bags.",
+            "DESIGN.md §3 C21",
+        ),
+    }
+)
+
 NOT_APPLICABLE: dict[str, str] = {
     "C06": "Correctness of the post-dominator/CDG construction on every code object is functional correctness of a graph "
     "algorithm; no shape of the code implies it and no sound static argument in reach bounds 'all code objects'.",
